@@ -17,6 +17,6 @@ cargo test --workspace --no-fail-fast --offline 2>&1 | grep -E "^test result|FAI
 mv /tmp/seeded_demo_$id.rs oxmpl/tests/seeded_demo.rs
 echo "ok-lines: $(grep -c 'test result: ok' $out/suite_with.txt)  failed-lines: $(grep -vc 'test result: ok' $out/suite_with.txt)"; grep -v 'test result: ok' $out/suite_with.txt | head -5
 echo "== demo WITHOUT change (expect pass)"
-git stash -q -- oxmpl/src oxmpl-py/src
+git apply -R $out/patch.diff  # (not git stash: the stash is shared between worktrees)
 cargo test -p oxmpl --test seeded_demo --offline $F 2>&1 | grep -E "^test result|panicked" | tail -4 > $out/demo_without.txt; cat $out/demo_without.txt
-git stash pop -q
+git apply $out/patch.diff
